@@ -28,6 +28,7 @@ Fixpoint wf_call (c : call) : Prop :=
   | FStringPut _ off n => i32 off /\ size32 n
   | FPutBytes fb off n => i32 fb /\ i32 off /\ size32 n
   | FGetBytes sz fb off | FPut sz fb off | FOverlay sz fb off => size32 sz /\ i32 fb /\ i32 off
+  | FField sz fb foff flen => size32 sz /\ i32 fb /\ 0 <= foff /\ 0 <= flen /\ foff + flen <= sz
   end.
 
 (* ------------------------------------------------------------------ lists, diff *)
@@ -266,6 +267,20 @@ Proof.
                 inside (e_cap e) (wrap32 (fb + off)) sz = true /\
                 res = (Ok (e_base e + wrap32 (fb + off)), add_log (0, e_base e + wrap32 (fb + off), sz) s))); auto.
     intros Hi. apply a_overlay_struct_spec; auto.
+  - (* FField *)
+    destruct Hc as (Hsz & Hf & H1 & H2 & H3). unfold as_bytes.
+    destruct (a_overlay_struct_spec e sz fb s W Hsz Hf) as [E | [Hin E]].
+    + assert (E1 : f_field e sz fb foff flen s = (Panic, s)) by (unfold f_field, f_new; bpanic E; reflexivity).
+      bpanic E1. cbn [fst snd]. auto.
+    + assert (Hin2 : inside (e_cap e) (fb + foff) flen = true)
+        by (apply inside_spec in Hin; apply inside_spec; lia).
+      assert (E1 : f_field e sz fb foff flen s =
+                   (Ok (map (s_mem s) (zseq (e_base e + (fb + foff)) flen)),
+                    add_log (0, e_base e + (fb + foff), flen) (add_log (0, e_base e + fb, sz) s))).
+      { unfold f_field, f_new. bok E. rewrite (rd_ok e (fb + foff) flen _ W Hin2). reflexivity. }
+      bok E1. cbn [ret fst snd add_log s_log s_mem]. split.
+      * apply log_inside_app; [apply LI_add0; auto | ]. unfold range_ok. cbn. apply inside_root; auto.
+      * intros n. unfold sp_reads. cbn [snd]. rewrite Hin, Hin2, diff_same, list_eqb_refl. reflexivity.
 Qed.
 
 (* ------------------------------------------------------------------ consequences, as stated in Props/C16.v *)
